@@ -48,6 +48,19 @@ type nvGo struct{ x int }
 
 func (n nvGo) GoString() string { return fmt.Sprintf("nvGo<%d>", n.x) }
 
+// formatting methods declared on nil-able non-pointer kinds, panicking on the nil value
+type nilSliceS []int
+
+func (s nilSliceS) String() string { return fmt.Sprint(s[0]) }
+
+type nilMapE map[string]int
+
+func (m nilMapE) Error() string { m["x"] = 1; return "set" }
+
+type nilFuncS func() string
+
+func (f nilFuncS) String() string { return f() }
+
 func nativeZoo() []interface{} {
 	arr := [3]byte{1, 2, 0x6b}
 	in := nvInner{sum: [4]byte{0x64, 0x61, 0x62, 0x65}, Name: "n‹m›\n"}
@@ -86,6 +99,8 @@ func nativeZoo() []interface{} {
 		[2]string{"‹a›", "b\nc"}, [3]bool{true, false, true}, []interface{}(nil), []float32{1.5, -0}, []complex128{1i},
 		[]*int{pi, nil}, [][]byte{[]byte("ab"), nil, {0x7f}}, []MyBytes{MyBytes("xy")}, struct{}{}, &struct{}{}, [0]int{},
 		int64(1)<<32 + 'A', uint64(1) << 63, int64(-1) << 40, int8(-128), uint8(200), 'x', rune(0x2039), rune(-5), uint32(0x10ffff + 1),
+		nilSliceS(nil), nilMapE(nil), nilFuncS(nil), nilSliceS{4}, []fmt.Stringer{nilSliceS(nil), nilFuncS(nil)},
+		map[int64]string{-1 << 63: "lo", 1: "hi", 1<<63 - 1: "max", -2: "m2"}, map[int]int{-1 << 63: 0, 1<<63 - 1: 1, 0: 2},
 		time.Duration(0), time.Unix(0, 0).UTC(), errors.New("plain‹"), fmt.Errorf("wrapped: %w", errors.New("in›ner")),
 	}
 }
